@@ -254,6 +254,8 @@ def check(run):
         for sgm in range(nseg):
             nh = 1 if kind != 2 else int(rng.integers(1, 5))  # several headers in a row
             for _ in range(nh):
+                if kind in (4, 7):
+                    cpd = CPDS[int(rng.integers(0, len(CPDS)))]  # cells-per-dimension is per header: it may change within a stream
                 recs.append(header_record(cpd, int(rng.integers(1, 4048)), [int(x) for x in rng.integers(0, cpd, 3)], lownib=int(rng.integers(0, 16))))
             n = int(rng.integers(0 if kind in (3, 4) else 1, 51))
             if n:
@@ -262,6 +264,10 @@ def check(run):
                 recs.append(pack_fields(f))
         if kind == 3 and nseg:
             recs.append(header_record(cpd, 1, [0, 0, 0]))  # header last
+        if kind == 5 and nseg:
+            recs.append(np.zeros((int(rng.integers(1, 4)), 9), dtype=np.uint8))  # all-zero records are particles (every field raw 0), also at the very end
+        if kind == 6:
+            recs = [np.zeros((1 + k % 3, 9), dtype=np.uint8)] if k % 16 == 6 else recs + [np.zeros((1, 9), dtype=np.uint8)]
         data = np.concatenate(recs) if recs else np.zeros((0, 9), dtype=np.uint8)
         m = ALL_MODES[k % len(ALL_MODES)]
         if run_modes(run, pack9, data, box, velz, f'interleave{kind}:cpd{cpd}', [m] + ([(np.float64, 'alloc')] if m != (np.float64, 'alloc') else [])):
@@ -342,6 +348,38 @@ def check(run):
         if (np.abs(vel - v) > vq * (0.5 + 1e-6)).any():
             i = np.argwhere(np.abs(vel - v) > vq * (0.5 + 1e-6))[0]
             run.violation('pack9-roundtrip-vel', dict(cpd=cpd, v=float(v[tuple(i)]), decoded=float(vel[tuple(i)]), quantum=vq))
+
+    # 5. a stream of millions of records through read_asdf (the anchored second entry point): one cell holding 2^21+70001
+    # particles with no header in between, then an ordinary cell
+    import os
+    import shutil
+    import tempfile
+
+    from abacusnbody.data import read_abacus as RA
+
+    from ..asdfio import write_asdf
+
+    nbig = 2**21 + 70001
+    f = rng.integers(0, 4096, (nbig, 6))
+    f[:, 0] = rng.integers(0, 0xFF0, nbig)
+    f2 = rng.integers(0, 4096, (50, 6))
+    f2[:, 0] = rng.integers(0, 0xFF0, 50)
+    data = np.concatenate([header_record(875, 1234, [1, 2, 3]), pack_fields(f), header_record(3, 999, [2, 0, 1]), pack_fields(f2)])
+    d = tempfile.mkdtemp(prefix='verif_c15_')
+    try:
+        fn = os.path.join(d, 'big.asdf')
+        write_asdf(fn, dict(header=dict(BoxSize=2000.0, VelZSpace_to_kms=1000.0, ppd=6912.0, OutputType='TimeSlice'), data=dict(pack9=data)), None)
+        for load, dtype in ((['pos', 'vel'], np.float64), (['pos'], np.float32)):
+            run.ev()
+            run.count('pack9_records_decoded', len(data))
+            t = RA.read_asdf(fn, load=load, dtype=dtype, verbose=False)
+            run.nt(('read_asdf-big', tuple(load), np.dtype(dtype).str))
+            if set(t.colnames) != set(load) or len(t) != nbig + 50:
+                run.violation('pack9-count', dict(stream='read_asdf: one cell of 2^21+70001 particles', got=len(t), expected=nbig + 50, columns=t.colnames))
+                continue
+            compare(run, data, 2000.0, 1000.0, dtype, np.asarray(t['pos']) if 'pos' in load else None, np.asarray(t['vel']) if 'vel' in load else None, nbig + 50, 'read_asdf:one-huge-cell', 'read_asdf')
+    finally:
+        shutil.rmtree(d, ignore_errors=True)
 
 
 def replay(run, data):
